@@ -43,7 +43,7 @@ def demo(rel, src):
 
 
 def main():
-    d, rel, props = sys.argv[1], sys.argv[2], sys.argv[3:]
+    d, rel, props = os.path.abspath(sys.argv[1]), sys.argv[2], sys.argv[3:]
     patch = os.path.join(d, "MUTANT.diff")
     if not os.path.exists(patch):
         patch = os.path.join(d, "patch.diff")
